@@ -1,5 +1,4 @@
-import Ledger.Proofs.MachineNoFault4
-import Ledger.Machine.VM
+import Ledger.Proofs.MachineBC5
 
 /-!
 C27 — Compiling and running any input never crashes.
@@ -52,6 +51,34 @@ theorem compile_total (s : Script) :
 theorem error_leaves_no_postings_bytecode (s : Script) (inp : Input) (e : Err)
     (h : semBytecode cfg s inp = .error e) : postingsOf (semBytecode cfg s inp) = none := by
   rw [h]; rfl
+
+/-- Stage (f), full statement: the byte-code pipeline (`compile`, then the VM model `exec`
+    over the real opcodes) computes exactly what the big-step semantics `sem` computes.
+    Checked by evaluation on every generated program; PROVED for `CompileCovered`
+    programs (below); open for programs with `send` statements. -/
+def exec_compile_eq_sem : Prop :=
+  ∀ (s : Script) (p : Program) (inp : Input), compile s = .ok p →
+    semBytecode Cfg.fixed s inp = sem Cfg.fixed s inp
+
+/-- Proved part of stage (f): for every program whose statements are `print`, `fail`,
+    `set_tx_meta`, `set_account_meta`, `save` (any variables — plain, `meta()`, `balance()` —
+    and any expressions), executing the compiled byte code with the VM model gives exactly
+    the result (postings, metadata, final tracked balances) or the error of `sem`.
+    (Expressions: `cExpr_ok`; resources are always resolvable: `resolveRes_exists`;
+    statements: `cStmt_ok`; declarations: `cVars_ok`.) -/
+theorem exec_compile_eq_sem_covered (s : Script) (hcov : CompileCovered s) (p : Program)
+    (hc : compile s = .ok p) (inp : Input) :
+    semBytecode Cfg.fixed s inp = sem Cfg.fixed s inp :=
+  semBytecode_eq_sem hcov hc inp
+
+/-- Transfer to the byte-code level: a covered, compiled program never hits a typed-pop /
+    stack fault nor a panic of the VM model `exec`. -/
+theorem welltyped_no_stack_fault_bytecode (s : Script) (hcov : CompileCovered s) (p : Program)
+    (hc : compile s = .ok p) (inp : Input) (w : String) :
+    semBytecode Cfg.fixed s inp ≠ .error (.fault w) ∧ semBytecode Cfg.fixed s inp ≠ .error (.panic w) := by
+  obtain ⟨ds, htc⟩ := compile_typechecks hc
+  rw [semBytecode_eq_sem hcov hc inp]
+  exact sem_nf htc inp w
 
 /-- A failing run returns no result at all: no postings, no metadata (the adapter
     returns `nil, err`; `resultNil` is checked on the real code for every failing case). -/
@@ -128,6 +155,16 @@ theorem welltyped_no_stack_fault_prefix_false : ¬ welltyped_no_stack_fault Cfg.
   | error e => rw [hs] at hp; simp [errOf] at hp; rw [hp]
 
 /-! Non-vacuity (kernel-evaluated tests). -/
+def covScript : Script :=
+  { vars := [⟨.monetary, "m", .none⟩, ⟨.monetary, "b", .balance (.acct "a") (.asset "USD")⟩],
+    stmts := [.setTxMeta "k" (.add (.var "m") (.var "b")), .save (.var "m") (.acct "a"),
+      .setAccountMeta (.acct "a") "n" (.sub (.num 7) (.num 9))] }
+example : CompileCovered covScript := by
+  intro st hst
+  simp only [covScript, List.mem_cons, List.mem_nil_iff, or_false] at hst
+  rcases hst with rfl | rfl | rfl <;> rfl
+example : (compile covScript).toOption.isSome = true := by decide +kernel
+
 def bcScript : Script :=
   { vars := [⟨.monetary, "m", .none⟩],
     stmts := [.send (.var "m")
